@@ -4008,41 +4008,28 @@ impl<'a> ZonedDifference<'a> {
         let tz = zdt1.time_zone();
 
         let (dt1, mut dt2) = (zdt1.datetime(), zdt2.datetime());
+        // When both datetimes are on the same civil day, there are no
+        // calendar units in the difference and the answer is just the exact
+        // elapsed time between the two instants. (We can't use the approach
+        // below in this case. For example, in a fold, the order of the clock
+        // times can be the reverse of the order of the instants, which would
+        // send us looking for an intermediate datetime on the wrong side.)
+        if dt1.date() == dt2.date() {
+            return zdt1.timestamp().until((Unit::Hour, zdt2.timestamp()));
+        }
 
         let mut day_correct: t::SpanDays = C(0).rinto();
         if -sign == dt1.time().until_nanoseconds(dt2.time()).signum() {
             day_correct += C(1);
         }
 
-        let mut mid = dt2
-            .date()
-            .checked_add(Span::new().days_ranged(day_correct * -sign))
-            .with_context(|| {
-                err!(
-                    "failed to add {days} days to date in {dt2}",
-                    days = day_correct * -sign,
-                )
-            })?
-            .to_datetime(dt1.time());
-        let mut zmid: Zoned = mid.to_zoned(tz.clone()).with_context(|| {
-            err!(
-                "failed to convert intermediate datetime {mid} \
-                     to zoned timestamp in time zone {tz}",
-                tz = tz.diagnostic_name(),
-            )
-        })?;
-        if t::sign(zdt2, &zmid) == -sign {
-            if sign == C(-1) {
-                return Err(err!(
-                    "failed to find an intermediate datetime between \
-                     {zdt1} and {zdt2} in time zone {tz} \
-                     (a time zone transition shifts the clock by more \
-                     than a day)",
-                    tz = tz.diagnostic_name(),
-                ));
-            }
-            day_correct += C(1);
-            mid = dt2
+        // Find a datetime with the civil time of `dt1`, on or near the date
+        // of `dt2`, that doesn't overshoot `zdt2`. Because of time zone
+        // transitions, the first candidate can overshoot, in which case we
+        // back off by one more day (and at most by two days overall).
+        let max_day_correct: t::SpanDays = C(2).rinto();
+        let (mid, zmid) = loop {
+            let mid = dt2
                 .date()
                 .checked_add(Span::new().days_ranged(day_correct * -sign))
                 .with_context(|| {
@@ -4052,14 +4039,25 @@ impl<'a> ZonedDifference<'a> {
                     )
                 })?
                 .to_datetime(dt1.time());
-            zmid = mid.to_zoned(tz.clone()).with_context(|| {
-                err!(
-                    "failed to convert intermediate datetime {mid} \
+            // N.B. When the intermediate datetime is the datetime we started
+            // with, then the instant we started with is the one we want.
+            // Re-resolving it could give us a different instant if it is in
+            // a fold.
+            let zmid: Zoned = if mid == dt1 {
+                zdt1.clone()
+            } else {
+                mid.to_zoned(tz.clone()).with_context(|| {
+                    err!(
+                        "failed to convert intermediate datetime {mid} \
                          to zoned timestamp in time zone {tz}",
-                    tz = tz.diagnostic_name(),
-                )
-            })?;
-            if t::sign(zdt2, &zmid) == -sign {
+                        tz = tz.diagnostic_name(),
+                    )
+                })?
+            };
+            if t::sign(zdt2, &zmid) != -sign {
+                break (mid, zmid);
+            }
+            if day_correct >= max_day_correct {
                 return Err(err!(
                     "failed to find an intermediate datetime between \
                      {zdt1} and {zdt2} in time zone {tz} \
@@ -4068,7 +4066,8 @@ impl<'a> ZonedDifference<'a> {
                     tz = tz.diagnostic_name(),
                 ));
             }
-        }
+            day_correct += C(1);
+        };
         let remainder_nano = zdt2.timestamp().as_nanosecond_ranged()
             - zmid.timestamp().as_nanosecond_ranged();
         dt2 = mid;
